@@ -305,6 +305,21 @@ def C12():
                 outside=["read_*_pdu recognisers", "byte-level PDU sequences"])
 
 
+def C15():
+    jobs = [
+        MirJob("c15_mir_authenticate_layout", "AUTHENTICATE token: for all field lengths < 65536 and all negotiate flags every (Len, MaxLen, BufferOffset) addresses its field inside the final token (SMT, cvc5 cross-check); payload order matches; the Version field is present exactly when the offsets assume it; inputs are the computed responses, names, wrapped session key; MIC covers negotiate | challenge | authenticate",
+               mirjobs.authenticate_layout),
+        MirJob("c15_mir_negotiate_flags_closures", "NTLM message closures (Version field skipping) have no failing arithmetic for any flag word", mirjobs.size_closures(r"^(negotiate_message|challenge_message|authenticate_message)::", 131072, "NTLM")),
+    ]
+    return Prop("C15", [], jobs,
+                assumptions=["HMAC-MD5, MD4, RC4 key schedule and the proofs computed with them are NOT decided (third-party crates pinned by the repo's vector tests; CBMC cannot execute them)"],
+                text="Reduced claim: the part of 'accepted by an independent MS-NLMP server' that is arithmetic and wiring - every length/offset pair addresses its field inside the token for all field lengths and flags, the optional Version field agrees with the offset base, the token is assembled from the right inputs in the right order, the MIC covers the three handshake messages.",
+                note="NOT covered: that the NT/LM proofs verify, that the wrapped session key unwraps, that the MIC value verifies, NT-hash vs password equivalence, target-info parsing (size idiom): they need HMAC-MD5/MD4/RC4 executed symbolically or an independent implementation, neither available to the solver-based engines here.",
+                technique="MIR->SMT symbolic execution (z3 QF_BV, cvc5 cross-check) of the AUTHENTICATE layout arithmetic and dataflow of read_challenge_message",
+                design_ref="DESIGN.md §4 C15 (reduced after E3 was built)",
+                outside=["cryptographic validity of the proofs, session key and MIC", "target-info block handling", "Unicode handling of names"])
+
+
 def C16():
     jobs = [
         Kani("c16_rc4_twin", "vacuity twin", expect="fail", fail_desc="twin reached", timeout=600, mem_gb=8),
@@ -377,6 +392,7 @@ def C04():
             ("c04_finalize_pdus", "synchronize / control(request) / font-list PDU bodies byte-exact for every target user", True, None)):
         jobs.append(Kani(h, claim, tiers=("quick", "thorough") if q else ("thorough",), bounds={"depth": "one component/trame"}, symbolic=["all numeric fields", "payload bytes"],
                          functions=["constructor + Message::write"], timeout=1500, mem_gb=12))
+    jobs.append(MirJob("c04_mir_ntlm_authenticate_layout", "NTLM AUTHENTICATE token: every (Len, MaxLen, BufferOffset) addresses its field for all field lengths < 65536 and all flags; Version field consistent with the offset base (shared with C15)", mirjobs.authenticate_layout))
     jobs.append(MirJob("c04_mir_core_data_name", "gcc::client_core_data: the clientName computation has no reachable panicking slice/index/unwrap and no failing arithmetic for any name (length symbolic)",
                        mirjobs.multi(mirjobs.panic_sites([(r"^client_core_data$", [(r"Option::<ClientData>::unwrap_or$", 1, "default parameters")])], {r"^client_core_data$": mirjobs.CORE_DATA_NATIVE}),
                                      mirjobs.fn_asserts(r"^client_core_data$", "client name length", loop_bound=0), mirjobs.core_data_units)))
@@ -487,9 +503,9 @@ def C18():
                 outside=["records with size-dependent or skippable fields (Component::read/write with MessageOption::Size/SkipField: CBMC does not finish)", "nested containers", "BER/DER (yasna) structures", "GCC conference blocks", "Version::from table (known finding D14 is checked by c18_mir_version_table)"])
 
 
-PROPS = {"C01": C01, "C02": C02, "C03": C03, "C04": C04, "C05": C05, "C06": C06, "C07": C07, "C08": C08, "C09": C09, "C10": C10, "C11": C11, "C12": C12, "C13": C13, "C14": C14, "C16": C16, "C17": C17, "C18": C18, "C19": C19}
+PROPS = {"C01": C01, "C02": C02, "C03": C03, "C04": C04, "C05": C05, "C06": C06, "C07": C07, "C08": C08, "C09": C09, "C10": C10, "C11": C11, "C12": C12, "C13": C13, "C14": C14, "C15": C15, "C16": C16, "C17": C17, "C18": C18, "C19": C19}
 
-MIR_PROPS = ["C01", "C02", "C03", "C04", "C05", "C06", "C07", "C08", "C10", "C11", "C12", "C13", "C14", "C16", "C17", "C18"]
+MIR_PROPS = ["C01", "C02", "C03", "C04", "C05", "C06", "C07", "C08", "C10", "C11", "C12", "C13", "C14", "C15", "C16", "C17", "C18"]
 
 _TODO = "not claimed yet: machinery for this property is still being built (see DESIGN.md §4 for the plan)"
 NOT_APPLICABLE = {
